@@ -209,7 +209,7 @@ namespace
         std::vector<int> cur;
         std::function<void(int)> rec = [&](int start)
         {
-          for (int fl = 0; fl < 4; ++fl) out->push_back({b, cur, fl});
+          for (int fl = 0; fl < 5; ++fl) out->push_back({b, cur, fl});
           if (cur.size() == maxextra) return;
           for (int i = start; i < static_cast<int>(EXTRA[static_cast<size_t>(b)].size()); ++i) { cur.push_back(i); rec(i+1); cur.pop_back(); }
         };
@@ -221,14 +221,19 @@ namespace
   {
     static const int c_q = Ctx::counter_id("surface_queries"), c_alias = Ctx::counter_id("surface_queries_through_longitude_alias"), c_out = Ctx::counter_id("surface_points_outside_triangulation");
     const SurfCase &c = (*cases)[idx];
-    // flavour: 0 cartesian (unit 1e5), 1 spherical lon offset 0, 2 spherical straddling 180, 3 spherical all beyond 180
-    const bool sph = c.flavour > 0;
+    // flavour: 0 cartesian (unit 1e5), 1 spherical lon offset 0, 2 spherical straddling 180, 3 spherical all beyond 180, 4 cartesian turned and moved far from the origin
+    const bool sph = c.flavour > 0 && c.flavour < 4;
     const double unit = sph ? PI/180 : 1e5, off = c.flavour == 2 ? 178*PI/180 : c.flavour == 3 ? 200*PI/180 : 0;
     std::vector<P2> pl = BASES[static_cast<size_t>(c.base)];
     for (int e : c.extra) pl.push_back(EXTRA[static_cast<size_t>(c.base)][static_cast<size_t>(e)]);
     std::vector<double> values, coords;
     const double VAL[3] = {1e5, 2.5e5, 1.7e5};
-    for (size_t i = 0; i < pl.size(); ++i) { values.push_back(VAL[(i*2+static_cast<size_t>(c.base)) % 3] + 1e3*static_cast<double>(i)); coords.push_back(off + pl[i][0]*unit); coords.push_back(pl[i][1]*unit); }
+    // flavour 4: cartesian, turned by 30 degrees and moved to (1e7, 1e7): no edge is parallel to an axis and points meant to lie on an edge miss it by rounding,
+    // which is what the last-resort triangle test of the lookup exists for
+    const bool turned = c.flavour == 4;
+    const double c30 = std::cos(PI/6), s30 = std::sin(PI/6);
+    auto place = [&](double px, double py) -> P2 { return turned ? P2{{1e7 + (c30*px - s30*py)*1e5, 1e7 + (s30*px + c30*py)*1e5}} : P2{{off + px*unit, py*unit}}; };
+    for (size_t i = 0; i < pl.size(); ++i) { values.push_back(VAL[(i*2+static_cast<size_t>(c.base)) % 3] + 1e3*static_cast<double>(i)); const P2 q = place(pl[i][0], pl[i][1]); coords.push_back(q[0]); coords.push_back(q[1]); }
     const WorldBuilder::Objects::Surface surf(std::make_pair(values, coords));
     const auto cs = sph ? WorldBuilder::CoordinateSystem::spherical : WorldBuilder::CoordinateSystem::cartesian;
     std::string cdesc = JObj().integer("base_polygon", c.base).raw("extra_points", jarr(c.extra)).integer("flavour", c.flavour).integer("triangles", static_cast<long long>(surf.triangles.size())).done();
@@ -236,8 +241,8 @@ namespace
     for (double qx = 0.0; qx <= xmax + 1e-9; qx += (c.base == 1 ? 0.25 : 0.25)) for (double qy = 0.0; qy <= ymax + 1e-9; qy += (c.base == 1 ? 0.125 : 0.25))
         {
           // the library hands over longitudes in (-pi, pi]
-          double lon = off + qx*unit;
-          const double lat = qy*unit;
+          double lon = place(qx, qy)[0];
+          const double lat = place(qx, qy)[1];
           bool alias = false;
           if (sph && lon > PI) { lon -= 2*PI; alias = true; }
           // full scan (long double barycentric coordinates), trying the point and its 2*pi alias
@@ -280,7 +285,7 @@ int main(int argc, char **argv)
   spec.rule = "line suite: slabs and faults from the product {slab,fault} x 7 coordinate settings (cartesian; spherical at latitude 0, 60, 85; trench across the dateline; meridional trenches spanning latitude 40..70 and 0..85) x 4 trench shapes x 7 dips x "
               "3 min depths x 2 lengths x 2 thicknesses x {constant, growing thickness} (quick: all tuples within 3 deviations of the default; thorough: full product), each built twice in one process - "
               "culling bounds as computed and made infinite through the GWB_VERIF switch - and compared bit-for-bit on a 25x25x13 lattice reaching 3(length+thickness) around the trench and below the "
-              "deepest possible point; surface suite: every value-point layout (3 base polygons x every subset of <= 2|3 of 7 extra points x 4 coordinate flavours) - local_value against a full "
+              "deepest possible point; surface suite: every value-point layout (3 base polygons x every subset of <= 2|3 of 7 extra points x 5 coordinate flavours) - local_value against a full "
               "long-double scan of its triangles. non-trivial: some lattice point lies inside the feature; tuples distinct by construction";
   spec.assumptions = {"the un-accelerated evaluation is the same code with infinite culling bounds (hook) resp. a full scan over the triangles of the same triangulation"};
   spec.counters = {"points_inside_feature", "points_compared", "points_inside_only_without_culling", "surface_queries", "surface_queries_through_longitude_alias", "surface_points_outside_triangulation"};
@@ -313,7 +318,7 @@ int main(int argc, char **argv)
     {
       auto cases = surf_cases(th ? 3 : 2);
       Suite a; a.name = "surface"; a.n = cases->size(); a.run = [cases](uint64_t i, Ctx &c) { run_surface(cases, i, c); };
-      a.bound = "3 base polygons (square, 8x1 rectangle, L-shape) x every subset of <= " + std::string(th ? "3" : "2") + " of 7 extra value points x {cartesian, spherical, spherical across 180, spherical beyond 180}";
+      a.bound = "3 base polygons (square, 8x1 rectangle, L-shape) x every subset of <= " + std::string(th ? "3" : "2") + " of 7 extra value points x {cartesian, spherical, spherical across 180, spherical beyond 180, cartesian turned by 30 degrees at (1e7,1e7)}";
       s.push_back(a);
     }
     return s;
